@@ -59,6 +59,7 @@ class Unit:
         self.edits = []       # executable-text edits (outline/havoc/closure)
         self.macro_rewrites = []
         self.clauses = []     # contract clauses with labels
+        self.rlimit = 10      # Verus --rlimit for this unit (default 10)
         self.hints_lost = {}  # fn -> [messages]: proof scaffolding whose anchor no longer exists
         self.template = None
 
@@ -245,6 +246,10 @@ def expand(template_path, repo, vacuity=False):
         d = s[4:].strip()
         if d.startswith("UNIT"):
             unit.name = d.split()[1]
+            i += 1
+            continue
+        if d.startswith("RLIMIT"):
+            unit.rlimit = int(d.split()[1])
             i += 1
             continue
         if d.startswith("TYPE") or d.startswith("CONST"):
